@@ -1,0 +1,17 @@
+//go:build verif
+
+package routingtable
+
+import "github.com/olric-data/olric/internal/discovery"
+
+// VerifMembers returns the members known to the routing table.
+func (r *RoutingTable) VerifMembers() []discovery.Member {
+	r.Members().RLock()
+	defer r.Members().RUnlock()
+	var res []discovery.Member
+	r.Members().Range(func(_ uint64, m discovery.Member) bool {
+		res = append(res, m)
+		return true
+	})
+	return res
+}
